@@ -24,6 +24,7 @@ import (
 //   B <ro|rw> <nkeys> keys.. <nops> bops..                       raw bbolt cursor, bops = F L N P S<hex>
 //   R .. / S ..                                                  re-opened cursors and scans: c14_reuse.go
 //   I ..                                                         scanners layered over cursors (IterateIds ..): c14_scan.go
+//   C / Q / I line followed by " @ m0 .. mn"                     the same case under an observation protocol: c14_proto.go
 // Observation line: one token per observation point (after the constructor and after every op):
 //   I (invalid) | V<hex> (valid, Current) | P (panic; everything after is P too)
 // for B lines: the key returned by each op, I for nil.
@@ -141,8 +142,8 @@ func c14RunOps(mk func() ast.SetCursor, ops []c14Op, seek func(c ast.SetCursor, 
 			}
 			return
 		}
-		obs = append(obs, c14Observe(c))
-		for _, o := range ops {
+		obs = append(obs, c14pObserveAt(c, 0, len(ops)))
+		for i, o := range ops {
 			if o.seek {
 				if !seek(c, o.v) {
 					for len(obs) < len(ops)+1 {
@@ -153,7 +154,7 @@ func c14RunOps(mk func() ast.SetCursor, ops []c14Op, seek func(c ast.SetCursor, 
 			} else {
 				c.Next()
 			}
-			obs = append(obs, c14Observe(c))
+			obs = append(obs, c14pObserveAt(c, i+1, len(ops)))
 		}
 	}()
 	return strings.Join(obs, " ")
@@ -313,7 +314,7 @@ func (o *c14Out) cursorCase(kind string, fw bool, present bool, a, b []string, o
 	if present {
 		p = 1
 	}
-	line := fmt.Sprintf("C %s %d %d %s %s %s", kind, f, p, c14Set(a), c14Set(b), c14OpsString(ops))
+	line := fmt.Sprintf("C %s %d %d %s %s %s", kind, f, p, c14Set(a), c14Set(b), c14OpsString(ops)) + c14pSuffix(len(ops))
 	o.emit(kind, line, c14RunOps(mk, ops, seek))
 }
 
@@ -780,6 +781,8 @@ func c14Cursors(dir string, out *c14Out, depth, depthThin, depthDeep int) error 
 		}, c14SeekPlain)
 		// several cursors alive at once, interleaved step by step (c14_multi.go)
 		c14Multi(tx, w, out, kinds, depthDeep > 0)
+		// cursor protocol: IsValid / Current / Next / Seek in any order, Next or Seek first (c14_proto.go)
+		c14pCases(tx, w, out, kinds, depthDeep > 0)
 		return nil
 	})
 }
@@ -896,14 +899,23 @@ func c14Queries(dir string, out *c14Out, r *rng, worlds int) error {
 					ops := c14NextOnly(len(ents) + 2)
 					for _, which := range []string{"allof", "anyof"} {
 						which := which
-						line := fmt.Sprintf("Q %s %d %s %s %s", which, f, strings.Join(entDesc, " "), c14Set(vl), c14OpsString(ops))
-						impl := c14RunOps(func() ast.SetCursor {
-							if which == "allof" {
-								return w.items.IteratorMatchingAllOf(w.rolesIdx, vl)(tx, fw)
-							}
-							return w.items.IteratorMatchingAnyOf(w.rolesIdx, vl)(tx, fw)
-						}, ops, c14SeekPlain)
-						out.emit(which, line, impl)
+						// worlds 1-3 additionally under the observation protocols of c14_proto.go (walks)
+						protos := [][]string{nil}
+						if wi >= 1 && wi <= 3 && len(vl) <= 2 {
+							protos = append(protos, c14pWalks(len(ops)+1)...)
+						}
+						for _, proto := range protos {
+							c14pProto = proto
+							line := fmt.Sprintf("Q %s %d %s %s %s", which, f, strings.Join(entDesc, " "), c14Set(vl), c14OpsString(ops)) + c14pSuffix(len(ops))
+							impl := c14RunOps(func() ast.SetCursor {
+								if which == "allof" {
+									return w.items.IteratorMatchingAllOf(w.rolesIdx, vl)(tx, fw)
+								}
+								return w.items.IteratorMatchingAnyOf(w.rolesIdx, vl)(tx, fw)
+							}, ops, c14SeekPlain)
+							out.emit(which, line, impl)
+						}
+						c14pProto = nil
 					}
 				}
 			}
@@ -927,6 +939,17 @@ func c14Queries(dir string, out *c14Out, r *rng, worlds int) error {
 						return w.rolesIdx.OpenKeyCursor(tx, fw)
 					}, c14SeekPlain)
 				}
+				if wi >= 1 && wi <= 2 {
+					for _, ops := range c14Seqs([]string{"a", "b", "zzz"}, 2) {
+						for _, proto := range c14pProtocols(3, []string{"v", "w"}) {
+							c14pProto = proto
+							out.cursorCase("idxkey", fw, true, keys, nil, ops, func() ast.SetCursor {
+								return w.rolesIdx.OpenKeyCursor(tx, fw)
+							}, c14SeekPlain)
+						}
+						c14pProto = nil
+					}
+				}
 			}
 			return nil
 		}))
@@ -937,7 +960,12 @@ func c14Queries(dir string, out *c14Out, r *rng, worlds int) error {
 // ---- replay of one case line --------------------------------------------------------------------
 
 func c14Replay(dir string, out *c14Out, line string) error {
-	f := strings.Fields(line)
+	// observation protocol of the case (c14_proto.go): "... @ m0 m1 .."; the case itself is the text before it
+	if at := strings.Index(line, " @ "); at >= 0 {
+		c14pProto = strings.Fields(line[at+3:])
+		defer func() { c14pProto = nil }()
+	}
+	f := strings.Fields(strings.SplitN(line, " @ ", 2)[0])
 	if len(f) == 0 {
 		return nil
 	}
